@@ -157,9 +157,10 @@ def asm(files, charset="bk", timeout=5.0, fs=None, handler="collect", listing=Fa
                 if isinstance(content, bytes):
                     p.write_bytes(content)
                 else:
-                    p.write_text(content, encoding="utf-8")
+                    p.write_text(content.replace("@ROOT@", str(root)), encoding="utf-8")
             named = []
             for name, text in files:
+                text = text.replace("@ROOT@", str(root))          # absolute paths written into sources (includes by absolute path)
                 p = Path(root) / name
                 p.parent.mkdir(parents=True, exist_ok=True)
                 p.write_text(text, encoding="utf-8")
